@@ -3035,6 +3035,7 @@ class Ac_Spec(Base):  # R466
 
     @staticmethod
     def match(string):
+        string = string.rstrip()
         if string.endswith("::"):
             return Type_Spec(string[:-2].rstrip()), None
         line, repmap = string_replace_map(string)
